@@ -17,6 +17,7 @@
 
 pub mod guard;
 pub mod accum;
+pub mod schedule;
 pub mod state;
 
 /// Hook `sched_raw` (C03, C01): drive the real pending queue / reservation code of both
